@@ -86,6 +86,8 @@ let () =
            | ["I"; idev; lo; up; si] -> Some (XApi (ASetInstances (z_of_string idev, z_of_string lo, z_of_string up, z_of_string si)))
            | ["D"; idev; u; f; c; m; g] -> Some (XApi (ASetDeviceInformation (z_of_string idev, z_of_string u, z_of_string f, z_of_string c, z_of_string m, z_of_string g)))
            | ["X"] -> Some (XApi ARestart)
+           | ["M"; mode; src] -> Some (XApi (ASetMode (z_of_string mode, z_of_string src)))
+           | ["L"; which; l] -> Some (XApi (ASetPgnList (z_of_string which, plist (if l = "-" then "" else l))))
            | _ -> (match base_op s with Some o -> Some (XBase o) | None -> None)) opstrs in
        let nonempty = List.map (fun s -> split s <> []) opstrs in
        let (r, evs) = xrun gf_lib r0 (List.filter_map (fun x -> x) ops) in
